@@ -224,6 +224,11 @@ func (c *Ctx) selectField(x ast.Expr, b Val, name string) Val {
 		if tf := c.E.typeFacts(v); tf != "true" && len(tf) < 2000 {
 			c.E.def(tf)
 		}
+		if c.St != nil {
+			if af := c.E.allocatedFacts(c.St, v); af != "true" && len(af) < 2000 {
+				c.E.def(af) // whatever a heap location holds was allocated before that heap state
+			}
+		}
 	}
 	return v
 }
@@ -448,6 +453,8 @@ func (c *Ctx) trCall(x *ast.CallExpr) Val {
 			inner.Old = c.Old.with(map[string]Val{id.Name: ival(bv)})
 		}
 		return bval(fmt.Sprintf("(forall ((%s Int)) %s)", bv, inner.boolT(args[1])))
+	case "emptyset":
+		return Val{tArrB, []string{"((as const (Array Int Bool)) false)"}}
 	case "payload":
 		v := c.tr(args[0])
 		return ival(v.C[1])
@@ -558,6 +565,25 @@ func (c *Ctx) trCall(x *ast.CallExpr) Val {
 		nm := c.E.heapKey(c.St, k, so)
 		om := c.E.heapKey(c.Old.St, k, so)
 		return bval(eq(nm, app("store", om, v.C[0], app("select", nm, v.C[0]))))
+	case "elemsframe":
+		// elemsframe(s): the element memory of s's element type is unchanged except for s's backing array
+		if c.Old == nil {
+			c.fail(x, "elemsframe() needs an old state")
+		}
+		v := c.tr(args[0])
+		sl, ok := v.T.Underlying().(*types.Slice)
+		if !ok {
+			c.fail(x, "elemsframe of non-slice")
+		}
+		var cs []string
+		for j, so := range flatten(sl.Elem()) {
+			k := elemKey(sl.Elem(), j)
+			s2 := "(Array Int (Array Int " + so + "))"
+			nm := c.E.heapKey(c.St, k, s2)
+			om := c.E.heapKey(c.Old.St, k, s2)
+			cs = append(cs, eq(nm, app("store", om, v.C[0], app("select", nm, v.C[0]))))
+		}
+		return bval(and(cs...))
 	case "freshbytes":
 		// freshbytes(s): s is a newly allocated byte slice (or nil) and no other byte memory changed
 		if c.Old == nil {
